@@ -12,11 +12,15 @@
 (*   - an event with Lamport > highest known Lamport + buffer event limit + 1 neither reaches    *)
 (*     the buffer nor is processed.                                                              *)
 (* Copies: every event instance handed to Enqueue is a distinct "copy" c of an event ev.         *)
-(*   batches[b] = [ordered, status ("calling" | "ok" | "refused"), done]                         *)
+(*   batches[b] = [ordered, status ("calling" | "ok" | "refused"), done, ran]                    *)
 (*   copies[c]  = [b, pos, ev, lam, size, rel, proc]                                             *)
 (*   arrived    = events whose first Exists was seen; highest = highest known Lamport time       *)
-(*   stopping   = Stop() has been called: a done callback that runs afterwards belongs to a      *)
-(*                batch that Stop interrupted, which is not "finished handling"                  *)
+(*   stopping   = Stop() has been called.  Stop may interrupt a batch: its done callback still    *)
+(*                runs, but events the inserter never got to are not handled.  A batch counts as  *)
+(*                "accepted and finished handling" when Stop returns if its done callback ran and *)
+(*                every one of its events was handled, i.e. was released or reached the ordering  *)
+(*                buffer (batches[b].done = the done callback ran before Stop was called, which   *)
+(*                implies that; batches[b].ran = it ran at all)                                   *)
 EXTENDS Integers, Sequences, FiniteSets
 
 VARIABLES cap, limnum, highest, batches, copies, arrived, stopping
@@ -42,7 +46,7 @@ Enqueue(b, ordered, cs) ==
   LET new == {cs[i].c : i \in 1..Len(cs)} IN
   /\ b \notin DOMAIN batches /\ new \cap DOMAIN copies = {}
   /\ batches' = [x \in DOMAIN batches \cup {b} |->
-                   IF x = b THEN [ordered |-> ordered, status |-> "calling", done |-> FALSE] ELSE batches[x]]
+                   IF x = b THEN [ordered |-> ordered, status |-> "calling", done |-> FALSE, ran |-> FALSE] ELSE batches[x]]
   /\ copies' = [x \in DOMAIN copies \cup new |->
                    IF x \in new
                    THEN LET i == CHOOSE j \in 1..Len(cs) : cs[j].c = x IN
@@ -54,7 +58,7 @@ Enqueue(b, ordered, cs) ==
 Enqueued(b, res, held) ==
   /\ b \in DOMAIN batches /\ batches[b].status = "calling"
   /\ HeldOK(held)
-  /\ res # "ok" => /\ ~batches[b].done                      \* a refused batch is not handled at all
+  /\ res # "ok" => /\ ~batches[b].ran                       \* a refused batch is not handled at all
                    /\ \A c \in CopiesOfBatch(b) : copies[c].rel = 0 /\ copies[c].proc = 0
   /\ batches' = [batches EXCEPT ![b].status = IF res = "ok" THEN "ok" ELSE "refused"]
   /\ UNCHANGED <<stopping, cap, limnum, highest, copies, arrived>>
@@ -92,9 +96,9 @@ Released(c, held) ==
 
 \* the done callback of batch b runs
 Done(b, held) ==
-  /\ b \in DOMAIN batches /\ batches[b].status # "refused" /\ ~batches[b].done
+  /\ b \in DOMAIN batches /\ batches[b].status # "refused" /\ ~batches[b].ran      \* at most once
   /\ HeldOK(held)
-  /\ batches' = IF stopping THEN batches ELSE [batches EXCEPT ![b].done = TRUE]
+  /\ batches' = [batches EXCEPT ![b].ran = TRUE, ![b].done = ~stopping]
   /\ UNCHANGED <<stopping, cap, limnum, highest, copies, arrived>>
 
 Unreleased == {c \in DOMAIN copies : batches[copies[c].b].status = "ok" /\ copies[c].rel = 0}
@@ -109,11 +113,20 @@ Idle(held) ==
 \* Stop() is called
 Stop == stopping' = TRUE /\ UNCHANGED <<cap, limnum, highest, batches, copies, arrived>>
 
+\* an event of an accepted batch was handled: released, or it reached the ordering buffer (asserted only for
+\* events that occur in one copy: Exists is asked per event, not per copy)
+Handled(c) == copies[c].rel = 1 \/ (Cardinality(CopiesOfEvent(copies[c].ev)) = 1 /\ copies[c].ev \in arrived)
+FinishedAtStop(b) == /\ batches[b].status = "ok" /\ batches[b].ran
+                     /\ \A c \in CopiesOfBatch(b) : Handled(c)
+AllFinishedAtStop == \A b \in DOMAIN batches : batches[b].status = "refused" \/ FinishedAtStop(b)
+
 \* Stop() has returned; leaked = some Enqueue was refused with "terminated" after acquiring
 Stopped(held, leaked) ==
   /\ \A b \in DOMAIN batches : (batches[b].status = "ok" /\ batches[b].done) =>
         \A c \in CopiesOfBatch(b) : copies[c].rel = 1         \* accepted + finished => released by Stop
+  /\ \A b \in DOMAIN batches : FinishedAtStop(b) =>            \* ... also when it finished while Stop was running
+        \A c \in CopiesOfBatch(b) : copies[c].rel = 1
   /\ HeldOK(held)
-  /\ (AllSettled /\ ~leaked) => (held.num = 0 /\ held.size = 0)   \* back to zero once all are released
+  /\ ((AllSettled \/ AllFinishedAtStop) /\ ~leaked) => (held.num = 0 /\ held.size = 0)   \* back to zero once all are released
   /\ UNCHANGED pvars
 =============================================================================
